@@ -205,11 +205,23 @@ def _run(ctx):
             ctx.inst("C04.R4", "components-call", len(ghc) == 1 and 2 in ctx.slicer.operand(ch, ghc[0].args[1], at=ghc[0].block).params if ghc else False,
                      "one health-components computation with the requested requirement type", "%d calls" % len(ghc), ghc[0].loc if ghc else None)
         rt = [c for c in ch.calls() if c.callee and c.callee["name"] == "check_account_risk_tiers"]
-        ok, w = A.must_pass(ch, [c.block for c in rt]) if rt else (False, None)
-        ctx.inst("C04.R4", "risk-tier-check", ok and all(A.consumed(ch, c.block)[0] for c in rt), "every healthy outcome passes the checked isolated-tier test",
+        if rt:
+            ok, w = A.must_pass(ch, [c.block for c in rt])
+            ok = ok and all(A.consumed(ch, c.block)[0] for c in rt)
+        else:
+            # the tier test written in place: every healthy outcome passes the guard that can raise IsolatedAccountIllegalState
+            ev_ = A.error_variant_blocks(ch, "IsolatedAccountIllegalState")
+            at_ = A.guard_atoms(prog, ch, ev_, ctx.slicer) if ev_ else []
+            ok, w = A.must_pass(ch, [a.switch[0] for a in at_]) if at_ else (False, None)
+        ctx.inst("C04.R4", "risk-tier-check", ok, "every healthy outcome passes the checked isolated-tier test",
                  "path avoiding it: %s" % w if not ok else "ok", rt[0].loc if rt else ch.loc(ch.raw["span"]))
     try:
-        crt = ctx.fn("C04.R4", {"name": "check_account_risk_tiers", "crate": "marginfi"})
+        crts = prog.find_fns({"name": "check_account_risk_tiers", "crate": "marginfi"})
+        if len(crts) == 1:
+            crt = crts[0]
+        else:
+            chs = [g for g in prog.find_fns({"name": "check_account_health", "crate": "marginfi"}) if A.error_variant_blocks(g, "IsolatedAccountIllegalState")]
+            crt = chs[0] if len(chs) == 1 else ctx.fn("C04.R4", {"name": "check_account_risk_tiers", "crate": "marginfi"})
         ev = A.error_variant_blocks(crt, "IsolatedAccountIllegalState")
         atoms = A.guard_atoms(prog, crt, ev, ctx.slicer) if ev else []
         conds = A.edge_conditions_to(prog, crt, ev[0], ctx.slicer) if ev else []
